@@ -502,3 +502,71 @@ func VerifCronLocation() {
 	<-ctx.Done()
 	zzverif.Cover("cron_location_done")
 }
+
+//verif:stub time.ParseDuration vParseDurationC05
+
+// time.ParseDuration for the three duration texts this file uses (symbolic runs; natively the real one)
+func vParseDurationC05(s string) (time.Duration, error) {
+	switch s {
+	case "1s":
+		return time.Second, nil
+	case "2s":
+		return 2 * time.Second, nil
+	case "3s":
+		return 3 * time.Second, nil
+	}
+	return 0, errBadDuration
+}
+
+var errBadDuration = errorStringC05("time: invalid duration")
+
+type errorStringC05 string
+
+func (e errorStringC05) Error() string { return string(e) }
+
+// The other entry points: AddFunc / AddJob with a spec (refused specs add nothing), Entry(id), and Run - the blocking
+// form of Start: it schedules like Start, a second Run (or Start) while running is a no-op that returns at once, and
+// it returns when Stop is called.
+//
+//verif:harness prop=C05 name=cron_run_and_addfunc threads=6 sched=delay preempt=1 t_preempt=2 unwind=40 witness=lenient
+func VerifCronRunAndAddFunc() {
+	start := zzverif.TimeFromNanos(1_000_000_000_000)
+	clk := zzverifstubs.NewClock(start)
+	jobs := &vJobs{block: make(chan struct{}), clk: clk}
+	c := New(WithClock(clk), WithLogger(vLogger{}), WithLocation(time.UTC))
+	_, err := c.AddFunc("@every", jobs.job(9, false))
+	zzverif.Assert(err != nil, "bad_spec_refused")
+	_, err = c.AddJob("1 2", jobs.job(9, false))
+	zzverif.Assert(err != nil, "bad_spec_refused")
+	zzverif.Assert(len(c.Entries()) == 0, "refused_spec_adds_nothing")
+	p := 1 + zzverif.Choose("period_seconds", 3)
+	spec := []string{"@every 1s", "@every 2s", "@every 3s"}[p-1]
+	id, err := c.AddFunc(spec, jobs.job(1, false))
+	zzverif.Assert(err == nil, "every_spec_accepted")
+	zzverif.Assert(c.Entry(id).Valid() && c.Entry(id).ID == id, "entry_found_by_id")
+	zzverif.Assert(!c.Entry(id+1).Valid(), "unknown_id_gives_invalid_entry")
+	returned := false
+	go func() {
+		c.Run()
+		zzverif.Ghost(func() { returned = true })
+	}()
+	zzverif.WaitQuiescent()
+	zzverif.Assert(!returned, "run_blocks_while_scheduling")
+	c.Run()   // already running: returns at once
+	c.Start() // likewise
+	t0 := clk.Now()
+	for k := 1; k <= 2; k++ {
+		clk.AdvanceTo(t0.Add(time.Duration(k*p) * time.Second))
+		zzverif.WaitQuiescent()
+		zzverif.Assert(jobs.count(1) == k, "one_start_per_activation")
+	}
+	e := c.Entry(id)
+	zzverif.Assert(e.Next.Equal(t0.Add(time.Duration(3*p)*time.Second)), "entry_next_is_the_activation_used")
+	zzverif.Assert(e.Prev.Equal(t0.Add(time.Duration(2*p)*time.Second)), "entry_prev_is_the_activation_used")
+	ctx := c.Stop()
+	<-ctx.Done()
+	zzverif.WaitQuiescent()
+	zzverif.Assert(returned, "run_returns_after_stop")
+	zzverif.Assert(zzverif.ThreadsAliveIs(0), "scheduler_gone_after_stop")
+	zzverif.Cover("cron_run_and_addfunc_done")
+}
